@@ -57,7 +57,17 @@ pub fn todef_line(bytes: &[u8]) -> String {
 
 /// Field-by-field equality including what `PartialEq` ignores (special ident, score bits, extract).
 fn defs_identical(a: &Definition, b: &Definition) -> bool {
-    if a != b {
+    // `==` on definitions compares unigram scores as numbers (NaN != NaN): scores are compared by their bits below
+    let blank = |d: &Definition| {
+        let mut d = d.clone();
+        if let Model::Unigram { scores, .. } = &mut d.model {
+            for s in scores.iter_mut() {
+                *s = 0.0;
+            }
+        }
+        d
+    };
+    if blank(a) != blank(b) {
         return false;
     }
     if a.specials.len() != b.specials.len() {
@@ -240,7 +250,8 @@ pub fn gen(rng: &mut Rng, thorough: bool, out: &mut Sink) {
             if rng.chance(1, 2) {
                 for sc in scores.iter_mut() {
                     if rng.chance(1, 4) {
-                        *sc = *rng.pick(&[f32::NEG_INFINITY, f32::INFINITY, f32::MIN, f32::MAX, -0.0, f32::MIN_POSITIVE, -1.0e-45]);
+                        // NaN: serializes and reads back bit for bit, and is rejected when a tokenizer is built (F27)
+                        *sc = *rng.pick(&[f32::NEG_INFINITY, f32::INFINITY, f32::MIN, f32::MAX, -0.0, f32::MIN_POSITIVE, -1.0e-45, f32::NAN]);
                     }
                 }
             }
